@@ -40,7 +40,7 @@ var curWorld *World
 type baselineFns struct {
 	loaded bool
 	fns    map[string]bool
-	sigs   map[string]string // reviewed function -> package|receiver|exported|signature
+	sigs   map[string]string   // reviewed function -> package|receiver|exported|signature
 	prints map[string][]string // reviewed function -> what its body mentions (callees, string literals)
 }
 
